@@ -326,9 +326,17 @@ class FakeSnowflakeCursor:
                 if cmd == "DROP DATABASE" and ident == self._conn.database:
                     self._conn.database = None
                     self._conn.schema = None
+                    self._conn.database_set = False
+                    self._conn.schema_set = False
 
-                elif cmd == "DROP SCHEMA" and ident == self._conn.schema:
+                elif (
+                    cmd == "DROP SCHEMA"
+                    and ident == self._conn.schema
+                    # a schema of the same name in another database isn't the current schema
+                    and (not (dropped := transformed.find(exp.Table)) or dropped.catalog in ("", self._conn.database))
+                ):
                     self._conn.schema = None
+                    self._conn.schema_set = False
 
         if table_comment := cast(tuple[exp.Table, str], transformed.args.get("table_comment")):
             # record table comment
